@@ -254,7 +254,7 @@ def build_app(variant=0):
     return app
 
 
-def env_of(method="GET", path="/hit", query="", body=None, ctype=None, headers=None):
+def env_of(method="GET", path="/hit", query="", body=None, ctype=None, headers=None, extra=None):
     env = {"REQUEST_METHOD": method, "PATH_INFO": path, "QUERY_STRING": query, "SERVER_NAME": "srv", "SERVER_PORT": "80",
            "SERVER_PROTOCOL": "HTTP/1.1", "wsgi.url_scheme": "http", "wsgi.input": io.BytesIO(body or b""),
            "wsgi.errors": io.StringIO(), "REMOTE_ADDR": "10.0.0.1", "HTTP_USER_AGENT": "UA"}
@@ -264,6 +264,7 @@ def env_of(method="GET", path="/hit", query="", body=None, ctype=None, headers=N
         env["CONTENT_TYPE"] = ctype
     for k, v in (headers or {}).items():
         env["HTTP_" + k.upper().replace("-", "_")] = v
+    env.update(extra or {})
     return env
 
 
@@ -351,6 +352,14 @@ KINDS = {
     "jsonres": lambda: env_of(path="/json", query="q=1"),
     "options": lambda: env_of("OPTIONS", "/hit"),
     "badmethod": lambda: env_of("BREW", "/hit"),
+    # per-request overrides of the application's settings: they hold for that request only
+    "crash-dbg-on": lambda: env_of(path="/crash", query="m=boom", extra={"poor_Debug": "On"}),
+    "crash-dbg-off": lambda: env_of(path="/crash", query="m=boom", extra={"poor_Debug": "off"}),
+    "debug-info-on": lambda: env_of(path="/debug-info", extra={"poor_Debug": "ON"}),
+    "listing-off": lambda: env_of(path="/dir/", extra={"poor_DocumentIndex": "Off"}),
+    "listing-on": lambda: env_of(path="/dir/", extra={"poor_DocumentIndex": "On"}),
+    "whoami-key": lambda: env_of(path="/whoami", headers={"Cookie": session_cookie()}, extra={"poor_SecretKey": "other"}),
+    "static-noroot": lambda: env_of(path="/static.txt", extra={"poor_DocumentRoot": "/nonexistent-verif"}),
 }
 KIND_NAMES = sorted(KINDS)
 
